@@ -8,6 +8,7 @@ import MidnightZK.Model.C17.Perm
 import MidnightZK.Model.C17.Params
 import MidnightZK.Model.C17.Zr
 import MidnightZK.Model.C17.Field
+import MidnightZK.Model.C17.Stdlib
 import MidnightZK.Gen.C17Consts
 /-! Line-protocol handler of property C17. -/
 namespace MidnightZK.C17.Driver
@@ -103,6 +104,28 @@ def paramsAnswer (fmt : Format) (bs : Bytes) : String :=
     let same := re == bs.take (bs.length - rest.length)
     s!"ok k={p.k} g={hexList p.g} gl={hexList p.gLagrange} g2={hexOf p.g2} sg2={hexOf p.sG2} rest={rest.length} rewrite={fmtBool same}"
 
+def archStr (a : Arch) : String :=
+  String.ofList (a.flags.map (fun b => if b then '1' else '0')) ++ ":" ++ toString a.pow2
+
+def nFlags : Nat := (Gen.archFields.filter (·.2)).length
+
+def mvkAnswer (fmt : Format) (sh : Shape) (bs : Bytes) : String :=
+  match readMVK g1c Gen.zkstdVersion nFlags Gen.nbArithCols version fmt (fun _ => sh) bs with
+  | .error e => e.code
+  | .ok (m, rest) =>
+    let re := writeMVK g1c Gen.zkstdVersion version fmt m
+    let same := re == bs.take (bs.length - rest.length)
+    s!"ok arch={archStr m.arch} npi={m.nbPublicInputs} k={m.vk.k} nf={m.vk.fixed.length} np={m.vk.perm.length} rest={rest.length} rewrite={fmtBool same}"
+
+def mpkAnswer (fmt : Format) (relLen : Nat) (sh : Shape) (bs : Bytes) : String :=
+  match readMPK g1c frCodec (readExact relLen) version fmt (fun _ => sh) bs with
+  | .error e => e.code
+  | .ok (m, rest) =>
+    let re := writeMPK g1c frCodec id version fmt m
+    let same := re == bs.take (bs.length - rest.length)
+    let lens (ps : List (List Nat)) := fmtNatList (ps.map List.length)
+    s!"ok k={m.k} rel={hexOf m.relation} vk.k={m.pk.vk.k} fixed={lens m.pk.fixedValues} perm={lens m.pk.permutations} rest={rest.length} rewrite={fmtBool same}"
+
 def parseCopies? (s : String) : Option (List (Nat × Nat × Nat × Nat)) :=
   if s = "-" then some [] else
   (s.splitOn ",").mapM (fun t =>
@@ -130,6 +153,14 @@ def answer (line : String) : String :=
     match (kv "fmt" f).bind fmtOf, kvNat "nf" nf, kvNat "np" np, kvNat "deg" deg, parseBytes? hex with
     | some fmt, some nf, some np, some deg, some bs => pkAnswer fmt ⟨nf, np, deg, Gen.frS⟩ bs
     | _, _, _, _, _ => "bad-op"
+  | ["mvkparse", f, nf, np, deg, hex] =>
+    match (kv "fmt" f).bind fmtOf, kvNat "nf" nf, kvNat "np" np, kvNat "deg" deg, parseBytes? hex with
+    | some fmt, some nf, some np, some deg, some bs => mvkAnswer fmt ⟨nf, np, deg, Gen.frS⟩ bs
+    | _, _, _, _, _ => "bad-op"
+  | ["mpkparse", f, rel, nf, np, deg, hex] =>
+    match (kv "fmt" f).bind fmtOf, kvNat "rel" rel, kvNat "nf" nf, kvNat "np" np, kvNat "deg" deg, parseBytes? hex with
+    | some fmt, some rel, some nf, some np, some deg, some bs => mpkAnswer fmt rel ⟨nf, np, deg, Gen.frS⟩ bs
+    | _, _, _, _, _, _ => "bad-op"
   | ["trepr", nf, np, raw, desc] =>
     match kvNat "nf" nf, kvNat "np" np, parseBytes? raw, parseBytes? desc with
     | some nf, some np, some raw, some desc =>
